@@ -81,6 +81,54 @@ def run_handshake(binary, seed, n):
     return out, log
 
 
+def run_banked(binary, seed, n, cases=None):
+    """two real controllers behind a real mem.InterleavedAddressPortMapper (2-4 banks per side, interleaving
+    smaller than / equal to / larger than the page); the harness plays the banks"""
+    tmp = os.path.join(vlib.BUILD, 'c19_bank_%d.json' % os.getpid())
+    cmd = [binary, '--seed', str(seed), '--bank-n', str(n), '--bank-out', tmp]
+    if cases is not None:
+        json.dump(cases, open(tmp + '.in', 'w'))
+        cmd += ['--bank-replay', tmp + '.in']
+    rc, log = vlib.run(cmd)
+    if cases is not None:
+        os.remove(tmp + '.in')
+    if rc != 0:
+        return None, log
+    out = json.load(open(tmp))
+    os.remove(tmp)
+    return out, log
+
+
+# always run first: a page of 1 KiB over 2 banks interleaved at 256 bytes (destination) read from 3 banks interleaved
+# at 1 KiB (source), and a 4 KiB page over two banks interleaved at 1 KiB (the geometry of seeded C19-14)
+BANK_WITNESS = [
+    {'nbanks': [2, 3], 'inter': [256, 1024], 'lat': [[0, 3], [1, 0, 7]], 'msize': 65536, 'sched': 1,
+     'reqs': [{'w': 0, 'rd': 62464, 'wr': 6144, 'size': 1024}]},
+    {'nbanks': [2, 2], 'inter': [1024, 1024], 'lat': [[5, 0], [0, 9]], 'msize': 65536, 'sched': 2,
+     'reqs': [{'w': 0, 'rd': 40960, 'wr': 8192, 'size': 4096}, {'w': 1, 'rd': 36864, 'wr': 4096, 'size': 4096}]},
+]
+
+BANK_IN = ('nbanks', 'inter', 'lat', 'msize', 'reqs', 'sched')
+
+
+def shrink_banked(binary, c):
+    """smallest scenario that still fails: one request at a time, then zero latencies"""
+    def fails(x):
+        out, _ = run_banked(binary, 0, 0, cases=[x])
+        return bool(out) and bool(out[0].get('viol'))
+    cur = {k: c[k] for k in BANK_IN}
+    for q in c['reqs']:
+        x = dict(cur, reqs=[q])
+        if fails(x):
+            cur = x
+            break
+    x = dict(cur, lat=[[0] * len(l) for l in cur['lat']])
+    if fails(x):
+        cur = x
+    out, _ = run_banked(binary, 0, 0, cases=[cur])
+    return out[0] if out and out[0].get('viol') else c
+
+
 HS_HEADER = 'From VDrv Require Import Handshake.\nOpen Scope N_scope.\n'
 KNOWN_WIRING = 'NewRDMADrainRspToDriver'
 
@@ -173,7 +221,8 @@ def main(argv):
                    'hand-written model coq/mem/Pmc.v of amd/timing/pagemigrationcontroller/pmc.go (tied by sampling, not verified)',
                    'hand-written model coq/drv/Migration.v of Driver.preparePageForMigration / allocatePageWithGivenVAddr / regular device free list / vm.PageTable (tied by sampling through a verif-tagged export hook)',
                    'hand-written model coq/drv/Handshake.v of the migration part of Driver.Tick (tied by sampling: the real driver with the harness playing MMU and command processors)',
-                   'Go harness harness/cmd/c19 (stub connection, network and byte-array memories, ID/port renumbering, store monitor)',
+                   'Go harness harness/cmd/c19 (stub connection, network and byte-array memories, ID/port renumbering, store monitor; '
+                   'banked scenarios: one byte array per bank, owner of an address computed by the harness from the geometry)',
                    'akita port = two bounded FIFOs of capacity 1; message IDs modelled as (creator, counter) pairs; addresses do not wrap at 2^64']
     rep.assumptions = ['theorems: the environment of the two controllers is any finite sequence of ticks, transfers, deliveries (any order), memory services (any order) and refusals; '
                        'migration requests go to one controller at a time per source (the driver sends one PageMigrationReqToCP at a time), have page sizes that are multiples of 64 and name the other controller',
@@ -192,7 +241,7 @@ def main(argv):
         replay_file = argv[argv.index('--replay') + 1]
         try:
             _o = json.load(open(replay_file))
-            if 'driver_case' in _o or 'handshake_case' in _o or ('case' not in _o and 'cases' not in _o and not isinstance(_o, list)):
+            if 'driver_case' in _o or 'handshake_case' in _o or 'banked_case' in _o or ('case' not in _o and 'cases' not in _o and not isinstance(_o, list)):
                 replay_file = None   # driver scenarios are regenerated from the seed: run the whole check
         except (OSError, ValueError):
             pass
@@ -237,6 +286,38 @@ def main(argv):
             rep.violation({'broken': 'harness run failed', 'log': log[-4000:]}, nofail=True)
             return rep.finish()
         cases += gen
+
+    # ---- banked local memories behind a real interleaved address-to-port mapper
+    if not replay_file:
+        bwit, blog = run_banked(binary, 0, 0, cases=BANK_WITNESS)
+        bcases, blog2 = run_banked(binary, vlib.seed(), 900 if thorough else 90)
+        if bwit is None or bcases is None:
+            blog = blog + blog2
+            bcases = None
+        else:
+            bcases = bwit + bcases
+        if bcases is None:
+            rep.obligation('harness run (banked-memory scenarios)', False)
+            rep.violation({'broken': 'banked-memory scenarios failed to run', 'log': blog[-4000:]}, nofail=True)
+            return rep.finish()
+        bbad = [c for c in bcases if c.get('viol')]
+        rep.obligation('monitor: %d migrations over interleaved banks, contents compared through the owning banks, '
+                       'every request sent to the owner of its address' % sum(c['completed'] for c in bcases), not bbad)
+        rep.coverage.update({'banked_cases': len(bcases),
+                             'banked_interleaving_vs_page': dict(collections.Counter(c['relation'] for c in bcases)),
+                             'banked_migrations_completed': sum(c['completed'] for c in bcases),
+                             'banked_pages_spanning_2_or_more_banks': sum(1 for c in bcases if c['spanbanks'] >= 2),
+                             'banked_write_requests_checked': sum(c['writes'] for c in bcases),
+                             'banked_read_requests_checked': sum(c['reads'] for c in bcases),
+                             'banked_replies_out_of_request_order': sum(c['outoforder'] for c in bcases),
+                             'banked_bank_count_histogram': dict(collections.Counter(str(n) for c in bcases for n in c['nbanks'])),
+                             'banked_monitor_failures': len(bbad)})
+        if bbad:
+            c = shrink_banked(binary, bbad[0])
+            rep.violation({'property': PROP, 'what': c['viol'], 'banked_case': c,
+                           'replay_cmd': 'c19 --bank-replay <file with [banked_case]> --bank-out out.json'},
+                          text='banked memory: ' + c['viol'])
+            return rep.finish()
 
     # ---- driver side: real preparePageForMigration calls (hook in the worktree)
     dcases = []
